@@ -34,12 +34,12 @@ Definition left_saturating (adj : list (list Z)) (h : Z -> Z) : Prop :=
   (forall u1 u2, 1 <= u1 <= len adj -> 1 <= u2 <= len adj -> h u1 = h u2 -> u1 = u2).
 
 (* ---------- binary pigeonhole: the hole of pigeon i is the number written by its bits ---------- *)
-Fixpoint bits_value (a : Z -> bool) (K i : Z) (k : nat) : Z :=
+Fixpoint bphp_bits_value (a : Z -> bool) (K i : Z) (k : nat) : Z :=
   match k with
   | O => 0
-  | S k' => (if a (bitvar K i (Z.of_nat k')) then 2 ^ (Z.of_nat k') else 0) + bits_value a K i k'
+  | S k' => (if a (bitvar K i (Z.of_nat k')) then 2 ^ (Z.of_nat k') else 0) + bphp_bits_value a K i k'
   end.
-Definition bphp_hole (a : Z -> bool) (n i : Z) : Z := bits_value a (bphp_bits n) i (Z.to_nat (bphp_bits n)).
+Definition bphp_hole (a : Z -> bool) (n i : Z) : Z := bphp_bits_value a (bphp_bits n) i (Z.to_nat (bphp_bits n)).
 (* holes are numbered 0..n-1 *)
 Definition binary_placement (m n : Z) (h : Z -> Z) : Prop :=
   (forall i, 1 <= i <= m -> 0 <= h i < n) /\
@@ -61,7 +61,7 @@ Definition relativized_placement (m r n : Z) (P Q : Z -> Z -> bool) (S : Z -> bo
 Definition count_sel (a : Z -> bool) (M p : Z) : list (list Z) := sel a (count_tab M p).
 (* every element lies in exactly one of the blocks *)
 Definition partition_of (M : Z) (blocks : list (list Z)) : Prop :=
-  forall i, 1 <= i <= M -> len (filter (memz i) blocks) = 1.
+  forall i, 1 <= i <= M -> len (filter (block_mem i) blocks) = 1.
 
 (* ---------- perfect matching ---------- *)
 Definition matching_sel (a : Z -> bool) (es : list (Z * Z)) : list (Z * Z) := sel a (matching_tab es).
